@@ -101,6 +101,9 @@ fn check_param_count(
                 .to_string(),
                 None,
             );
+            // the message already states both counts; one diagnostic per call is enough
+            // (a second missing parameter would produce an exact duplicate)
+            break;
         }
     }
     // 调用参数多于定义参数, 需要考虑可变参数
